@@ -128,6 +128,33 @@ def cycle_spec(kinds, two_modules=False, soft_names=False):
             "modules": ["lib", "main"] if two_modules else ["main"], "vars": [], "funcs": funcs, "entries": entries, "eps": []}
 
 
+def lazy_specs():
+    """the offending call sits in an accepted module that only a function-level 'import pkg.mod' reaches, and that nobody has
+    imported yet when the evaluation is analysed: [(spec, expected code, detail)] - one entry per program (one fresh process each)"""
+    out = []
+    for back in ("call", "keep", "hof"):
+        for entry in ("eval", "keep"):
+            if back == "call":
+                hb = [{"k": "call", "fn": "F0", "form": "from"}]
+            elif back == "keep":
+                hb = [{"k": "keep", "path": "/cy/h", "fn": "F0", "args": [], "form": "from"}]
+            else:
+                hb = [{"k": "hof", "fn": "F0"}]
+            funcs = [{"name": "Hp", "module": "H:hmod", "params": [], "body": hb},
+                     {"name": "F0", "module": "main", "params": [], "body": [{"k": "call", "fn": "Hp", "form": "local_module_import"}]}]
+            ent = {"kind": "eval", "fn": "F0"} if entry == "eval" else {"kind": "keep", "fn": "F0", "path": "/cy/top"}
+            out.append(({"id": f"LZ/cycle/{back}/{entry}", "key": f"lazy_module|cycle|{back}", "modules": ["main"], "vars": [], "funcs": funcs,
+                         "entries": {"e": ent}, "eps": []}, "CIRCULAR_CALL", f"cycle main.F0 -> (import inside the body) helper.Hp -{back}-> main.F0"))
+    for entry in ("eval", "keep"):
+        funcs = [{"name": "inner", "module": "main", "params": [], "body": []},
+                 {"name": "Hp", "module": "H:hmod", "params": [], "body": [{"k": "eval", "fn": "inner"}]},
+                 {"name": "root", "module": "main", "params": [], "body": [{"k": "call", "fn": "Hp", "form": "local_module_import"}]}]
+        ent = {"kind": "eval", "fn": "root"} if entry == "eval" else {"kind": "keep", "fn": "root", "path": "/ne/top"}
+        out.append(({"id": f"LZ/nested_eval/{entry}", "key": "lazy_module|nested_eval", "modules": ["main"], "vars": [], "funcs": funcs,
+                     "entries": {"e": ent}, "eps": []}, "EVAL_IN_EVAL", "dds.eval inside a helper module imported in the body of the root function"))
+    return out
+
+
 def nested_eval_spec(depth, kind):
     funcs = [{"name": "inner", "module": "main", "params": [], "body": []}]
     prev_item = {"k": "eval", "fn": "inner"}
@@ -239,6 +266,8 @@ def plan(tier):
             spec = nested_eval_spec(d, kind)
             expect = {e: ("EVAL_IN_EVAL", f"dds.eval nested {d} level(s) below the root behind {kind} edges, entry {e}") for e in spec["entries"]}
             items.append((spec, expect, "memory"))
+    for spec, code, detail in lazy_specs():
+        items.append((spec, {"e": (code, detail)}, "memory"))
     return items, len(pls)
 
 
